@@ -175,11 +175,12 @@ func TestVerifReplay(t *testing.T) {
 	var cur int64 = -1
 	var curStart int64
 	limit := time.Duration(envIntOr("VERIF_WATCHDOG_S", 30)) * time.Second // a behaviour takes milliseconds; generous for loaded machines
+	base := time.Now()                                                     // (monotonic readings: a step of the wall clock must not look like a hang)
 	go func() {
 		for {
 			time.Sleep(200 * time.Millisecond)
 			c, st := atomic.LoadInt64(&cur), atomic.LoadInt64(&curStart)
-			if c >= 0 && time.Now().UnixNano()-st > int64(limit) && atomic.LoadInt64(&cur) == c {
+			if c >= 0 && int64(time.Since(base))-st > int64(limit) && atomic.LoadInt64(&cur) == c {
 				fmt.Fprintf(os.Stderr, "WATCHDOG: behaviour %d exceeded %v\n", c, limit)
 				os.Exit(3)
 			}
@@ -190,9 +191,19 @@ func TestVerifReplay(t *testing.T) {
 		if err := json.Unmarshal(sc.Bytes(), &steps); err != nil {
 			t.Fatalf("behaviour %d: %v", nb, err)
 		}
-		atomic.StoreInt64(&curStart, time.Now().UnixNano())
+		atomic.StoreInt64(&curStart, int64(time.Since(base)))
 		atomic.StoreInt64(&cur, int64(nb))
 		prog.WriteAt([]byte(fmt.Sprintf("%-12d", nb)), 0)
+		// self-test of the replay machinery: VERIF_DIE_ONCE=<marker file>:<behaviour> makes the driver die once at that behaviour
+		if d := os.Getenv("VERIF_DIE_ONCE"); d != "" {
+			if i := strings.LastIndex(d, ":"); i > 0 && d[i+1:] == fmt.Sprint(nb) {
+				if _, err := os.Stat(d[:i]); err != nil {
+					os.WriteFile(d[:i], []byte("x"), 0o644)
+					fmt.Fprintf(os.Stderr, "VERIF_DIE_ONCE at behaviour %d\n", nb)
+					os.Exit(3)
+				}
+			}
+		}
 		for _, w := range ws {
 			nrun++
 			if mm := runBehaviour(w, nb, steps); mm != nil {
